@@ -351,7 +351,7 @@ func (c *Ctx) panicFreedom(rule string, fns []*ssa.Function) (nOb, nOK int) {
 		}
 		R.Analysed(fname(fn))
 		plain := core.NewLin(c.P, fn, mods, sum)
-		var withPre *core.Lin
+		var withPre, withPre2 *core.Lin
 		unexported := !token.IsExported(fn.Name()) && fn.Parent() == nil && len(c.P.CallSitesOf(fn)) > 0
 		for _, ob := range obs {
 			nOb++
@@ -376,6 +376,23 @@ func (c *Ctx) panicFreedom(rule string, fns []*ssa.Function) (nOb, nOK int) {
 					R.OK(rule, key, c.at(ob.in), "run-time check cannot fail: "+ob.kind+" "+ob.what, "E-LIN with the lifted precondition (int parameters >= 0): "+withPre.Last)
 					continue
 				}
+				if withPre2 == nil {
+					withPre2 = core.NewLin(c.P, fn, mods, sum)
+					for _, p := range fn.Params {
+						if bt, ok := p.Type().Underlying().(*types.Basic); ok && bt.Kind() == types.Int {
+							withPre2.AssumeGE(p, 0, "precondition "+p.Name()+" >= 0")
+						}
+						if _, ok := p.Type().Underlying().(*types.Slice); ok {
+							withPre2.Assume = append(withPre2.Assume, withPre2.FactLE(core.Zero, withPre2.LenOf(p), -1))
+							needed = append(needed, pre{fn, p, "nonempty"})
+						}
+					}
+				}
+				if ob.prove(withPre2) {
+					nOK++
+					R.OK(rule, key, c.at(ob.in), "run-time check cannot fail: "+ob.kind+" "+ob.what, "E-LIN with the lifted preconditions (int parameters >= 0, slice parameters non-empty): "+withPre2.Last)
+					continue
+				}
 			}
 			R.Fail(rule, key, c.at(ob.in), "run-time check cannot fail: "+ob.kind+" "+ob.what, "undischarged: no dominating guard, definition or contract bounds this "+ob.kind+" - a client-controlled value can make it panic (index / slice out of range, negative size)")
 		}
@@ -398,8 +415,16 @@ func (c *Ctx) panicFreedom(rule string, fns []*ssa.Function) (nOb, nOK int) {
 			caller := site.Parent()
 			l := core.NewLin(c.P, caller, mods, sum)
 			arg := site.Common().Args[idx]
-			t, off := l.Expr(arg)
 			nOb++
+			if p.kind == "nonempty" {
+				ok := l.Prove(site, core.Zero, l.LenOf(arg), -1)
+				if ok {
+					nOK++
+				}
+				R.Check(ok, rule, fkey(caller)+":precondition:"+fkey(p.fn)+"(len("+p.param.Name()+")>=1)", c.at(site), "call site establishes the callee's precondition len("+p.param.Name()+") >= 1", "E-LIN: "+l.Last, "cannot prove len("+describe(arg)+") >= 1 at this call of "+fname(p.fn)+": an empty slice is indexed")
+				continue
+			}
+			t, off := l.Expr(arg)
 			ok := l.Prove(site, core.Zero, t, off)
 			if ok {
 				nOK++
